@@ -5,6 +5,12 @@ import os
 
 V = os.path.dirname(os.path.dirname(os.path.abspath(__file__)))
 CHECKS = {
+    'C13': ('per case (own process): six identical start attempts with 1-3 structure-aware mutations of a valid configuration triple (answering or silent interface), then a start with a valid configuration; return value in {0,1}, ASan/UBSan/LSan, held-set empty at return, no wait-for cycle / watchdog, no thread alive after a failed start, allocated bytes not growing, valid restart verified through its getters',
+            'watchdog 120 s per case, expiry inside bidib_start_pointer is a violation; leak criterion = growth at each of the last three of six identical attempts + LSan',
+            'runtime monitoring: ASan/UBSan/LSan + lock/thread/heap monitors over mutated configurations'),
+    'C17': ('memcheck V-bit probes (VALGRIND_GET_VBITS from the harness) of every API-meaningful field of every getter result for known, unknown and NULL ids; ASan keep / mutate / stop / re-read / free-once probe of kept results; field-by-field equality of bidib_get_state() with the single-entity getters at every snapshot',
+            'gated fields probed only when their flag is set; padding never probed; valgrind 3.19 memcheck; gcc ASan/LSan',
+            'runtime monitoring: valgrind memcheck V-bit probes + ASan/LSan + snapshot cross-check'),
     'C15': ('model node tree (address = path of local addresses, lost interface takes its subtree): connectivity getters after start (incl. a table change during enumeration) and after each of 0-30 node-new/node-lost notices, one NODE_CHANGED_ACK(version) to the announcer per notice, a ping per board addressed to the model\'s current address or refused',
             'simulated bus node table updated alongside scripted notices; announcers of depth <= 2',
             'runtime monitoring: tree-model oracle over getter snapshots and decoded wire + ASan/UBSan'),
